@@ -49,7 +49,11 @@ struct Codec<MapType<Key, T, Compare, Allocator>,
       // of each string as we will be copying them directly to our queue buffer.
       for (auto const& elem : arg)
       {
-        total_size += Codec<std::pair<Key, T>>::compute_encoded_size(conditional_arg_size_cache, elem);
+        // elem is a std::pair<Key const, T>: passing it as std::pair<Key, T> const& would construct a
+        // temporary copy of the key and the value (a heap allocation on the hot path for strings and
+        // containers), so the two members are handled directly, in the same order as Codec<std::pair>
+        total_size += Codec<Key>::compute_encoded_size(conditional_arg_size_cache, elem.first);
+        total_size += Codec<T>::compute_encoded_size(conditional_arg_size_cache, elem.second);
       }
     }
 
@@ -64,8 +68,8 @@ struct Codec<MapType<Key, T, Compare, Allocator>,
 
     for (auto const& elem : arg)
     {
-      Codec<std::pair<Key, T>>::encode(buffer, conditional_arg_size_cache,
-                                       conditional_arg_size_cache_index, elem);
+      Codec<Key>::encode(buffer, conditional_arg_size_cache, conditional_arg_size_cache_index, elem.first);
+      Codec<T>::encode(buffer, conditional_arg_size_cache, conditional_arg_size_cache_index, elem.second);
     }
   }
 
